@@ -488,6 +488,20 @@ class Monitor:
             """truth values of the user callbacks at the concrete arguments mentioned by f (A7: pure, deterministic)"""
             out = []
             for t in T.subterms([f]):
+                if z3.is_app(t) and t.num_args() == 1 and t.decl().name() == "truthy":
+                    a0 = z3.simplify(t.arg(0))
+                    key = ("truthy", a0.get_id())
+                    if key not in cb_seen and a0.get_id() in rev:
+                        cb_seen.add(key)
+                        was = self.enabled
+                        self.enabled = False
+                        try:
+                            out.append(T.truthy(a0) == z3.BoolVal(bool(rev[a0.get_id()])))      # bool(obj) of a concrete object
+                        except Exception:
+                            pass
+                        finally:
+                            self.enabled = was
+                    continue
                 if not z3.is_app(t) or t.num_args() < 2:
                     continue
                 nm = t.decl().name()
@@ -641,6 +655,14 @@ class Monitor:
                 good = True
             if not good:
                 return self.fail(qualname, "result differs from the contract", conc, f"observed {result!r}")
+            if isinstance(exp, VSet) and isinstance(result, (set, frozenset)):
+                # the contents of a returned set: membership of every known object as the contract's post-state says
+                rr = world.ref(result)
+                for obj in all_objs:
+                    want = S_(o.post.read("setmem", rr, world.ref(obj)))
+                    if not holds(want == z3.BoolVal(any(obj is y for y in result))):
+                        return self.fail(qualname, f"membership of {describe(obj)} in the returned set differs from the contract", conc,
+                                         f"observed {any(obj is y for y in result)}")
         elif o.exc is None and o.result is None and result is not None:
             return self.fail(qualname, "contract says the call returns None", conc, f"observed {result!r}")
         # post-state
